@@ -405,6 +405,13 @@ Definition classify (ic : icpts) (p : bytes) : pclass :=
       | Some ts =>
         if negb (no_adjacent ts) || negb (nodupb (par_names ts)) then PMalformed
         else if existsb (fun t => match t with TPar _ _ rule => match kind_of ic rule with KBad => true | _ => false end | _ => false end) ts then PMalformed
+        else if existsb (fun t => match t with
+                                  | TPar false name rule =>
+                                    match kind_of ic rule with
+                                    | KRegexp _ => negb (forallb (fun c => is_word c || N.eqb c 95) name)
+                                    | _ => false end
+                                  | _ => false end) ts
+             then POther                          (* (?P<name>…) wants an identifier: not one of the documented errors *)
         else if all_kinds_ok ic ts then PWf ts else PUnsupported
       | None => POther
       end
@@ -438,7 +445,7 @@ Definition url_clauses (s : srt) (o : line) (r : list bytes) : list bytes :=
                             "C10:strict-url-refused-or-wrong"
         else check (negb isok) "C10:strict-url-accepted-invalid"
       | PMalformed => check (negb isok) "C10:strict-url-accepted-malformed-pattern"
-      | _ => check (isok || negb (ahas p (live s)) || true) "C10:-"
+      | _ => []
       end
     else
       match ps with
